@@ -65,6 +65,10 @@ func mkC05Case(key []byte) c05Case {
 
 func init() {
 	registerReplay("C05", func(raw json.RawMessage) ([]Discrepancy, error) {
+		var dc c05DecCase
+		if err := json.Unmarshal(raw, &dc); err == nil && dc.Req.Name != nil {
+			return c05DecodeExec(&dc.Req), nil
+		}
 		var c c05Case
 		if err := json.Unmarshal(raw, &c); err != nil {
 			return nil, err
